@@ -14,16 +14,14 @@ MAGIC = b"LZIP"
 MIN_DICT, MAX_DICT = 1 << 12, 1 << 29
 
 def decode_dict_size(b):
-    """-> dictionary size, or None if the coded value is out of the valid range."""
+    """-> dictionary size, or None if the coded value is out of the valid range 4 KiB .. 512 MiB.
+    (The manual's rule is applied literally: base 4 KiB with a non-zero fraction gives a size below 4 KiB and is
+    invalid -- liblzma agrees; the lzip tool itself does not subtract at the minimum base size.)"""
     bits = b & 0x1F
     if bits < 12 or bits > 29:
         return None
     ds = 1 << bits
-    if ds > MIN_DICT:
-        ds -= (ds // 16) * ((b >> 5) & 7)
-    elif (b >> 5) & 7:
-        # 4 KiB minus wedges would be below the minimum: lzip's decoder does not subtract at the minimum size
-        pass
+    ds -= (ds // 16) * ((b >> 5) & 7)
     if ds < MIN_DICT or ds > MAX_DICT:
         return None
     return ds
@@ -87,13 +85,16 @@ class LzipResult:
         return "LzipResult(%s, members=%d, out=%d, consumed=%d, trailing=%d %s)" % (
             self.verdict, len(self.members), sum(map(len, self.outputs)), self.consumed, self.trailing, self.detail)
 
-def parse(data, concatenated=True, collect='full', impl='auto'):
+def parse(data, concatenated=True, collect='full', impl='auto', strict_eos=True):
     """Strict parser/decoder.
 
     Rules after the first member (concatenated=True), as described for XZ Utils in tests/files/README and the
     lzip manual (--loose-trailing behaviour): if the next 4 bytes are "LZIP" a new member starts and must be
     complete and valid; anything else (including 1-3 bytes that are a prefix of the magic) is trailing data and
     is ignored.  concatenated=False stops after the first member.
+    strict_eos=True: the End Of Stream marker must have length 2 as the lzip manual defines it (length 3 is lzlib's
+    "Sync Flush marker", other lengths are undefined) -> 'error:eos_len'; liblzma accepts any length as EOS
+    (strict_eos=False reproduces that).
     """
     data = bytes(data)
     n = len(data)
@@ -108,21 +109,24 @@ def parse(data, concatenated=True, collect='full', impl='auto'):
             if data[pos:pos + 4] != MAGIC:
                 R.trailing = n - pos
                 break
-        if n - pos < 6:
-            if first and data[pos:pos + 4] != MAGIC[:max(0, min(4, n - pos))]:
-                R.verdict = 'error:format'
-            else:
-                R.verdict = 'truncated'
+        # header fields are judged in order as far as they are available (like a streaming decoder)
+        have = data[pos:pos + 4]
+        if have != MAGIC[:len(have)]:
+            R.verdict = 'error:format'        # only reachable for the first member
             return R
-        if data[pos:pos + 4] != MAGIC:
-            R.verdict = 'error:format'
+        if n - pos < 5:
+            R.verdict = 'truncated'
             return R
         ver = data[pos + 4]
-        M = dict(offset=pos, version=ver, ds_byte=data[pos + 5], dict_size=None)
+        M = dict(offset=pos, version=ver, ds_byte=None, dict_size=None)
         R.members.append(M)
         if ver > 1:
             R.verdict = 'unsupported:version'
             return R
+        if n - pos < 6:
+            R.verdict = 'truncated'
+            return R
+        M['ds_byte'] = data[pos + 5]
         ds = decode_dict_size(data[pos + 5])
         M['dict_size'] = ds
         if ds is None:
@@ -139,7 +143,7 @@ def parse(data, concatenated=True, collect='full', impl='auto'):
         if r.status != 'ok_eopm':
             R.verdict = 'error:lzma:' + r.status.split(':', 1)[1]
             return R
-        if r.eopm_len != 2:
+        if strict_eos and r.eopm_len != 2:
             R.verdict = 'error:eos_len'
             R.detail = "marker length %d" % r.eopm_len
             return R
